@@ -382,6 +382,102 @@ func fieldVar(t types.Type, idx int) *types.Var {
 // dependsOn: does v transitively depend (within its function) on a value
 // satisfying pred? Follows operands, loads from local Allocs to their stores,
 // and phi edges. Bounded by a visited set.
+func dependsOnX(v ssa.Value, pred func(ssa.Value) bool) bool {
+	type key struct {
+		v   ssa.Value
+		top ssa.CallInstruction
+	}
+	seen := map[key]bool{}
+	var walk func(ssa.Value, int, []ssa.CallInstruction, int) bool
+	walk = func(x ssa.Value, depth int, stack []ssa.CallInstruction, up int) bool {
+		if x == nil || depth > 200 {
+			return false
+		}
+		var top ssa.CallInstruction
+		if len(stack) > 0 {
+			top = stack[len(stack)-1]
+		}
+		if seen[key{x, top}] {
+			return false
+		}
+		seen[key{x, top}] = true
+		if pred(x) {
+			return true
+		}
+		switch t := x.(type) {
+		case *ssa.FreeVar:
+			// captured variable: continue in the enclosing function at the closure's binding
+			if b := freeVarBinding(t); b != nil {
+				return walk(b, depth+1, stack, up)
+			}
+			return false
+		case *ssa.Alloc:
+			// values stored into this local (also through element / field addresses:
+			// composite literals and varargs arrays are built that way)
+			for _, st := range storedThrough(t) {
+				if walk(st.Val, depth+1, stack, up) {
+					return true
+				}
+			}
+			return false
+		case *ssa.Parameter:
+			idx := paramIndex(t)
+			if idx < 0 {
+				return false
+			}
+			if len(stack) > 0 {
+				c := stack[len(stack)-1]
+				if args := c.Common().Args; c.Common().StaticCallee() == t.Parent() && idx < len(args) {
+					return walk(args[idx], depth+1, stack[:len(stack)-1], up)
+				}
+				return false
+			}
+			if up >= maxCallDepth {
+				return false
+			}
+			for _, c := range callSitesOf(t.Parent()) {
+				if args := c.Common().Args; idx < len(args) {
+					if walk(args[idx], depth+1, nil, up+1) {
+						return true
+					}
+				}
+			}
+			return false
+		case *ssa.Call, *ssa.Extract:
+			// the result of a module helper depends on what the helper returns (in addition to
+			// the operands followed below)
+			if c, h, idx := moduleCallee(x); h != nil && len(stack) < maxCallDepth {
+				for _, b := range h.Blocks {
+					if ret, ok := b.Instrs[len(b.Instrs)-1].(*ssa.Return); ok && idx < len(ret.Results) {
+						if walk(ret.Results[idx], depth+1, append(append([]ssa.CallInstruction{}, stack...), c), up) {
+							return true
+						}
+					}
+				}
+			}
+		}
+		if in, ok := x.(ssa.Instruction); ok {
+			for _, op := range in.Operands(nil) {
+				if op != nil && *op != nil {
+					if walk(*op, depth+1, stack, up) {
+						return true
+					}
+				}
+			}
+		}
+		// elements stored into a slice/array/map built locally
+		switch t := x.(type) {
+		case *ssa.Slice:
+			return walk(t.X, depth+1, stack, up)
+		}
+		return false
+	}
+	return walk(v, 0, nil, 0)
+}
+
+// dependsOn: intraprocedural version (operands, loads from local Allocs to their stores, phi
+// edges, captured variables); calls are crossed only from result to arguments. Used where a rule
+// enumerates the sites that build a value, or decides a taint that must not leak across objects.
 func dependsOn(v ssa.Value, pred func(ssa.Value) bool) bool {
 	seen := map[ssa.Value]bool{}
 	var walk func(ssa.Value, int) bool
@@ -395,14 +491,11 @@ func dependsOn(v ssa.Value, pred func(ssa.Value) bool) bool {
 		}
 		switch t := x.(type) {
 		case *ssa.FreeVar:
-			// captured variable: continue in the enclosing function at the closure's binding
 			if b := freeVarBinding(t); b != nil {
 				return walk(b, depth+1)
 			}
 			return false
 		case *ssa.Alloc:
-			// values stored into this local (also through element / field addresses:
-			// composite literals and varargs arrays are built that way)
 			for _, st := range storedThrough(t) {
 				if walk(st.Val, depth+1) {
 					return true
@@ -419,7 +512,6 @@ func dependsOn(v ssa.Value, pred func(ssa.Value) bool) bool {
 				}
 			}
 		}
-		// elements stored into a slice/array/map built locally
 		switch t := x.(type) {
 		case *ssa.Slice:
 			return walk(t.X, depth+1)
